@@ -121,6 +121,17 @@ func GenGitLog(t *tape.Tape) string {
 		b = append(b, summary...)
 		b = append(b, "")
 	}
+	if t.Bool(1, 16) {
+		// a monorepo-sized tail: 30 commits touching 3000 new paths each (90 000 distinct entities):
+		// whatever summarises names by fingerprints or in fixed-size tables meets real numbers
+		for i := 0; i < 30; i++ {
+			b = append(b, fmt.Sprintf("[%07x] %s 2020-%02d-%02d chore: import batch %d", 0xdef000+i, authors[t.Pick(len(authors))], 1+i%12, 1+i%27, i))
+			for k := 0; k < 3000; k++ {
+				b = append(b, fmt.Sprintf("%d\t%d\tmono/d%03d/f%05d.java", 1+k%7, k%3, (i*3000+k)%997, i*3000+k))
+			}
+			b = append(b, "")
+		}
+	}
 	text := strings.Join(b, "\n") + "\n"
 	if t.Bool(1, 3) {
 		// the shape `coca git` really reads: the last commit is not followed by a blank line
